@@ -95,6 +95,7 @@ type exec struct {
 	uuidTerms   []*Term
 	uuidSubst   map[string]string
 	facts       map[int]bool // terms whose truth value the path condition fixes syntactically
+	realStrings bool         // this path needs the real string theory (concatenation / ordering reached the solver)
 
 	cover map[*ssa.Function]int // per worker, cumulative
 	stats workerStats
@@ -194,9 +195,7 @@ func (ex *exec) resetPath(prefix []int) {
 	ex.uuidSubst = nil
 	ex.facts = map[int]bool{}
 	ex.solver.Reset()
-	if ex.fp != nil {
-		ex.fp.Reset()
-	}
+	ex.solver.SetEUFStrings(!ex.realStrings)
 }
 
 // assertPC adds c to the path condition.
@@ -207,9 +206,6 @@ func (ex *exec) assertPC(c *Term) {
 	ex.pcTerms = append(ex.pcTerms, c)
 	ex.learn(c, true)
 	ex.solver.Assert(c)
-	if ex.fp != nil {
-		ex.fp.Assert(c)
-	}
 }
 
 // check decides pc ∧ extra, routing FP-arithmetic queries to cvc5 when available.
@@ -234,6 +230,11 @@ func (ex *exec) check(extra *Term, wantModel bool) (Result, map[string]interface
 		}
 	}
 	if useFP {
+		// the FP back end is loaded with the path condition only when a query is routed to it
+		ex.fp.Reset()
+		for _, t := range ex.pcTerms {
+			ex.fp.Assert(t)
+		}
 		return ex.fp.Check(ext, ex.modelTerms(wantModel), wantModel)
 	}
 	return ex.solver.Check(ext, ex.modelTerms(wantModel), wantModel)
@@ -488,8 +489,20 @@ type pathOutcome struct {
 	ndec     int
 }
 
-// runPath executes the harness once following prefix.
-func (ex *exec) runPath(entry *ssa.Function, prefix []int, wantSample bool) (out pathOutcome) {
+// runPath executes the harness once following prefix; a path on which string concatenation or ordering reaches
+// the solver is re-executed with the real string theory instead of the equality/length/isuuid abstraction.
+func (ex *exec) runPath(entry *ssa.Function, prefix []int, wantSample bool) pathOutcome {
+	ex.realStrings = false
+	out := ex.runPath1(entry, prefix, wantSample)
+	if out.status == "internal" && strings.HasPrefix(out.reason, "realstrings") {
+		ex.realStrings = true
+		ex.stats.paths--
+		out = ex.runPath1(entry, prefix, wantSample)
+	}
+	return out
+}
+
+func (ex *exec) runPath1(entry *ssa.Function, prefix []int, wantSample bool) (out pathOutcome) {
 	ex.resetPath(prefix)
 	ex.stats.paths++
 	defer func() {
